@@ -512,6 +512,9 @@ func (r *yieldRewriter) rewriteForStmt(
 	}
 
 	if trivalPost {
+		// MAKE SURE THE LOOP BODY THUNK ENDS WITH RETURN STMT
+		// e.g., body ending with a yielding switch
+		r.generateLastNormalIfNecessary(body)
 		callFor := r.CallFor(
 			r.ForCondFun(stmt.Cond),
 			r.ForPostFun(stmt.Post),
